@@ -82,7 +82,9 @@ def run_uncached(repo, wanted, reg):
             elif b not in s:
                 exposed.append('%s: MISSING %s' % (f, a))
         out['exposed'] = exposed
-        cmd = ['cargo', 'kani', '--output-format', 'terse', '-j', '8']
+        # per-harness timeout: a harness that blows up on a changed tree is "undecided" for its properties, it must not stall the check
+        cmd = ['cargo', 'kani', '-Z', 'unstable-options', '--harness-timeout', '10m' if any(h['tier'] != 'quick' for h in wanted) else '4m',
+               '--output-format', 'terse', '-j', '8']
         for h in wanted:
             cmd += ['--harness', h['name']]
         out['cmd'] = ' '.join(cmd)
@@ -111,7 +113,9 @@ def run_uncached(repo, wanted, reg):
                 if name is None:
                     continue
                 blk = m.group(4)
-                if 'VERIFICATION:- SUCCESSFUL' in blk:
+                if 'TIMEOUT' in blk.upper() or 'timed out' in blk:
+                    status[name] = ('timeout', blk)
+                elif 'VERIFICATION:- SUCCESSFUL' in blk:
                     status[name] = ('success', blk)
                 elif 'VERIFICATION:- FAILED' in blk:
                     status[name] = ('failed', blk)
